@@ -13,6 +13,7 @@ use barter::{
     EngineEvent,
     engine::{
         Engine, EngineOutput,
+        command::Command,
         action::ActionOutput,
         audit::EngineAudit,
         clock::HistoricalClock,
@@ -72,6 +73,8 @@ use vh::util::*;
 // TWO exchanges, each with its own request channel, ExecutionManager, MockExecution client and MockExchange task.
 const EXCHANGES: [ExchangeId; 2] = [ExchangeId::BinanceSpot, ExchangeId::Kraken];
 
+static CLOSE_IDS: std::sync::atomic::AtomicUsize = std::sync::atomic::AtomicUsize::new(0);
+
 /// One instrument of the system: where it lives and where the builder indexed it.
 #[derive(Clone)]
 struct Inst {
@@ -81,6 +84,7 @@ struct Inst {
     price: i64,
 }
 type State = EngineState<DefaultGlobalData, DefaultInstrumentMarketData>;
+type Cmd = Command<ExchangeIndex, AssetIndex, InstrumentIndex>;
 
 fn order_kind(s: &ActiveOrderState) -> &'static str {
     match s {
@@ -140,8 +144,10 @@ impl ClosePositionsStrategy for Observer {
         AssetIndex: 'a,
         InstrumentIndex: 'a,
     {
-        // not used by this driver (close-positions orders would need ids outside the fixed pool)
-        close_open_positions_with_market_orders(&self.id, state, filter, |_| ClientOrderId::new("unused"))
+        // ids of close-position orders come from their own pool z1, z2, ...
+        close_open_positions_with_market_orders(&self.id, state, filter, |_| {
+            ClientOrderId::new(format!("z{}", CLOSE_IDS.fetch_add(1, std::sync::atomic::Ordering::Relaxed) + 1))
+        })
     }
 }
 
@@ -288,6 +294,9 @@ async fn main() {
     };
     // a panic inside the system under test is data: a command that cannot be delivered because the engine
     // task has ended (e.g. after a component of the system died) is recorded, and the run goes on to shutdown
+    // every command handed to the System API, as the engine must later report having processed it
+    let mut intended: Vec<String> = vec![];
+    let mut closes = 0usize;
     let mut dead: Option<String> = None;
     macro_rules! cmd {
         ($e:expr) => {
@@ -304,6 +313,7 @@ async fn main() {
                 // open: a market order (fills), sometimes a limit order (rejected by the mock) or one it cannot afford
                 let inst = rng.random_range(0..n_inst);
                 let req = new_open(&mut rng, &mut next_id, &mut used, inst);
+                intended.push(format!("{:?}", Cmd::SendOpenRequests(OneOrMany::One(req.clone()))));
                 cmd!(system.send_open_requests(OneOrMany::One(req)));
             }
             35..=44 if next_id < 37 => {
@@ -318,20 +328,49 @@ async fn main() {
                     let third = rng.random_range(0..n_inst);
                     batch.push(new_open(&mut rng, &mut next_id, &mut used, third));
                 }
+                intended.push(format!("{:?}", Cmd::SendOpenRequests(OneOrMany::Many(batch.clone()))));
                 cmd!(system.send_open_requests(OneOrMany::Many(batch)));
             }
             45..=64 if !used.is_empty() => {
                 let (inst, cid) = used[rng.random_range(0..used.len())].clone();
                 let id = rng.random_bool(0.5).then(|| OrderId::new("x"));
-                cmd!(system.send_cancel_requests(OneOrMany::One(OrderRequestCancel { key: key(&insts[inst], &cid), state: RequestCancel { id } })));
+                let req = OneOrMany::One(OrderRequestCancel { key: key(&insts[inst], &cid), state: RequestCancel { id } });
+                intended.push(format!("{:?}", Cmd::SendCancelRequests(req.clone())));
+                cmd!(system.send_cancel_requests(req));
             }
             65..=69 if used.len() >= 2 => {
                 // cancels for ids of both exchanges in one command
                 let picks: Vec<(usize, String)> = (0..3).map(|_| used[rng.random_range(0..used.len())].clone()).collect();
-                cmd!(system.send_cancel_requests(OneOrMany::Many(picks.iter().map(|(inst, cid)| OrderRequestCancel { key: key(&insts[*inst], cid), state: RequestCancel { id: None } }).collect())));
+                let req = OneOrMany::Many(picks.iter().map(|(inst, cid)| OrderRequestCancel { key: key(&insts[*inst], cid), state: RequestCancel { id: None } }).collect());
+                intended.push(format!("{:?}", Cmd::SendCancelRequests(req.clone())));
+                cmd!(system.send_cancel_requests(req));
             }
-            70..=79 => cmd!(system.cancel_orders(InstrumentFilter::None)),
-            80..=89 => {
+            70..=77 => {
+                let filter = match rng.random_range(0..3) {
+                    0 => InstrumentFilter::None,
+                    1 => InstrumentFilter::exchanges([insts[rng.random_range(0..n_inst)].exi]),
+                    _ => InstrumentFilter::instruments([insts[rng.random_range(0..n_inst)].idx, insts[rng.random_range(0..n_inst)].idx]),
+                };
+                intended.push(format!("{:?}", Cmd::CancelOrders(filter.clone())));
+                cmd!(system.cancel_orders(filter));
+            }
+            78 | 79 if closes < 5 => {
+                // close the open positions of one exchange / one instrument / everywhere: market orders z1, z2, ...
+                closes += 1;
+                let filter = match rng.random_range(0..3) {
+                    0 => InstrumentFilter::None,
+                    1 => InstrumentFilter::exchanges([insts[rng.random_range(0..n_inst)].exi]),
+                    _ => InstrumentFilter::instruments([insts[rng.random_range(0..n_inst)].idx]),
+                };
+                intended.push(format!("{:?}", Cmd::ClosePositions(filter.clone())));
+                cmd!(system.close_positions(filter));
+            }
+            80 => {
+                // (the state it is already in: the observer must keep being called after every event)
+                intended.push(format!("{:?}", TradingState::Enabled));
+                cmd!(system.trading_state(TradingState::Enabled));
+            }
+            81..=89 => {
                 t += 1;
                 let inst = &insts[rng.random_range(0..n_inst)];
                 let _ = mtx.send(MarketStreamEvent::Item(MarketEvent { time_exchange: time(t), time_received: time(t), exchange: inst.ex, instrument: inst.idx,
@@ -418,9 +457,15 @@ async fn main() {
     let mut vi = 0usize;
     let mut ticks = 0usize;
     let mut link_notices = 0usize;
+    let mut processed_cmds: Vec<String> = vec![];
     while let Ok(tick) = audit_rx.rx.try_recv() {
         let EngineAudit::Process(p) = &tick.event else { continue };
         ticks += 1;
+        match &p.event {
+            EngineEvent::Command(c) => processed_cmds.push(format!("{c:?}")),
+            EngineEvent::TradingStateUpdate(t) => processed_cmds.push(format!("{t:?}")),
+            _ => {}
+        }
         let mut lines: Vec<Value> = vec![];
         for o in p.outputs.iter() {
             if let EngineOutput::Commanded(a) = o {
@@ -492,6 +537,12 @@ async fn main() {
             out.line(&l);
         }
     }
+    // the System API is a thin sender: the engine must have processed exactly the commands handed to it, in order
+    if dead.is_none() && processed_cmds != intended {
+        let at = processed_cmds.iter().zip(intended.iter()).position(|(a, b)| a != b).unwrap_or(processed_cmds.len().min(intended.len()));
+        out.line(&json!({"a": "Anomaly", "tag": "command_fidelity", "anomaly": format!("commands handed to the System API and commands the engine processed differ at #{at} ({} handed, {} processed): handed {:?}, processed {:?}",
+            intended.len(), processed_cmds.len(), intended.get(at), processed_cmds.get(at))}));
+    }
     if drop_link {
         // exactly one disconnect notice must have reached the engine for the killed link
         out.line(&json!({"a": "LinkDownCount", "killed": killed, "n": link_notices}));
@@ -499,5 +550,5 @@ async fn main() {
     let n = out.finish();
     let nf = fresh.map(|f| f.finish()).unwrap_or(0);
     println!("{}", json!({"lines": n, "fresh_lines": nf, "audit_records": ticks, "strategy_views": views.len(), "opens": next_id, "link_notices": link_notices,
-                            "commands_spanning_both_exchanges": mixed_batches, "links_killed": killed.len()}));
+                            "commands_spanning_both_exchanges": mixed_batches, "commands": intended.len(), "close_positions_commands": closes, "links_killed": killed.len()}));
 }
